@@ -1044,6 +1044,9 @@ class AstEval:
             _LOGGER.debug("Skipping stubs import %s", arg.module)
             return
         mod = await self.global_ctx.module_import(arg.module, arg.level)
+        if not mod and arg.level > 0:
+            # a relative import never falls back to an installed module of the same name
+            raise ModuleNotFoundError(f"module '{'.' * arg.level}{arg.module}' not found")
         if not mod:
             if (
                 not self.config_entry.data.get(CONF_ALLOW_ALL_IMPORTS, False)
